@@ -99,6 +99,13 @@ func isSortOf(info *types.Info, n ast.Node, x *types.Var) bool {
 		if sortCallees[core.CalleeName(info, c)] && len(c.Args) >= 1 && core.Mentions(info, c.Args[0], x) && naturalSort(info, c) {
 			return true
 		}
+		// sort.StringSlice(x).Sort(): what sort.Strings(x) and sort.Sort(sort.StringSlice(x)) are defined as
+		switch core.CalleeName(info, c) {
+		case "(sort.StringSlice).Sort", "(sort.IntSlice).Sort", "(sort.Float64Slice).Sort":
+			if rc := recvOf(c); rc != nil && core.Mentions(info, rc, x) {
+				return true
+			}
+		}
 	}
 	return false
 }
